@@ -26,7 +26,7 @@ func init() { register(c10{}) }
 func (c10) ID() string    { return "C10" }
 func (c10) Level() string { return "fault_enumeration" }
 func (c10) Rule() string {
-	return "packets of the C01 domain plus malformed-but-constructible ones (QoS 3, no filters, no topic, zero packet id, will QoS 3) x writers: succeeding; re-entrant (the writer encodes other packets inside Write); the caller's own *bufio.Writer, healthy, carrying the error of an earlier failed flush, and partly filled (0, 1, L-1, L/2, L bytes free) over a connection that fails on the flush WriteTo triggers; failing before writing (0,E); accepting only the first k bytes then (k,E) for EVERY k below the frame length when the frame is <= 256 bytes (boundary and log-spaced k above), and k = frame length (everything accepted, error reported all the same). Offline check of the recorded Write calls: bytes handed to the writer form exactly one frame (reference header parser), returned n = bytes accepted = frame length = 1+|remaining length field|+remaining length = N of String()'s 'N bytes'; with a failing writer the returned error is the writer's (errors.Is) and n the bytes it accepted; Undefined writes nothing and returns an error. distinct = (packet signature, writer script); non-trivial = optional field present or failing writer"
+	return "packets of the C01 domain plus malformed-but-constructible ones (QoS 3, no filters, no topic, zero packet id, will QoS 3) x writers: succeeding; re-entrant (the writer encodes other packets inside Write); the caller's own *bufio.Writer, healthy, carrying the error of an earlier failed flush, a *bytes.Buffer used as a queue (earlier output partly read, 0, 1, L-1, L bytes of room at the end), and partly filled (0, 1, L-1, L/2, L bytes free) over a connection that fails on the flush WriteTo triggers; failing before writing (0,E), E being an injected error, a wrapped one, a timeout-class one or one of 15 sentinel errors of io/os/net/syscall/context; one failing writer in three accepts everything after its error; accepting only the first k bytes then (k,E) for EVERY k below the frame length when the frame is <= 256 bytes (boundary and log-spaced k above), and k = frame length (everything accepted, error reported all the same). Offline check of the recorded Write calls: bytes handed to the writer form exactly one frame (reference header parser), returned n = bytes accepted = frame length = 1+|remaining length field|+remaining length = N of String()'s 'N bytes'; with a failing writer the returned error is the writer's (errors.Is) and n the bytes it accepted; Undefined writes nothing and returns an error. distinct = (packet signature, writer script); non-trivial = optional field present or failing writer"
 }
 func (c10) Assumptions() []string {
 	return []string{"writers obey io.Writer: a short write comes with a non-nil error", "string fields avoid the substring ' bytes' so that the size printed by String() parses unambiguously"}
@@ -150,6 +150,13 @@ func (c10) Run(c *run.Ctx, phase, idx int) {
 	case h.HdrLen-1 != ref.VBILen(h.RemLen):
 		c.Violation("C10/remlen-not-minimal/"+T, "remaining length not in minimal form", det(map[string]interface{}{"written": hexClip(frame, 64)}))
 	}
+	if a.Type == ref.TConnect && a.HasWill() {
+		// the will of the CONNECT as it comes back from the wire is a packet
+		// of its own (a broker publishes it): it must be written as one
+		if res := libRead(frame); res.Accepted() {
+			willAsPacket(c, "C10", res.Pkt, func() map[string]interface{} { return det(nil) })
+		}
+	}
 	if int(n) != len(frame) {
 		c.Violation("C10/count/"+T, fmt.Sprintf("WriteTo returned n=%d but %d bytes reached the writer (in %d Write calls)", n, len(frame), w.Calls), det(nil))
 	}
@@ -221,6 +228,33 @@ func (c10) Run(c *run.Ctx, phase, idx int) {
 		c.Count("writer", "bytes.Buffer", 1)
 		if pan != nil || err5 != nil || int(n5) != len(frame) || !bytes.Equal(bb.Bytes(), frame) {
 			c.Violation("C10/bytes-buffer/"+T, fmt.Sprintf("into a *bytes.Buffer: n=%d err=%v panic=%v, %d bytes arrived (frame %d)", n5, err5, pan != nil, bb.Len(), len(frame)), det(nil))
+		}
+		// a *bytes.Buffer used as a queue: earlier output partly read
+		// already, little room left at the end of its array
+		if L := len(frame); L >= 2 && L <= 1<<16 {
+			for _, freeEnd := range []int{0, 1, L - 1, L} {
+				for _, consumed := range []int{1, L, -1} {
+					capN := 2*L + 64
+					pre := capN - freeEnd
+					if consumed < 0 || consumed > pre {
+						consumed = pre - 1
+					}
+					qb := bytes.NewBuffer(make([]byte, 0, capN))
+					old := r.Bytes(pre)
+					qb.Write(old)
+					qb.Next(consumed)
+					var n7 int64
+					var err7 error
+					pan := mon.Guard(func() { n7, err7 = pkt.WriteTo(qb) })
+					c.Eval(1)
+					c.Count("writer", "bytes.Buffer-partly-drained", 1)
+					want := append(append([]byte(nil), old[consumed:]...), frame...)
+					if pan != nil || err7 != nil || int(n7) != L || !bytes.Equal(qb.Bytes(), want) {
+						c.Violation("C10/bytes-buffer-queue/"+T, fmt.Sprintf("into a *bytes.Buffer holding %d unread bytes (%d already read, %d bytes of room at the end): n=%d err=%v panic=%v; buffer content as expected: %v", pre-consumed, consumed, freeEnd, n7, err7, pan, bytes.Equal(qb.Bytes(), want)), det(nil))
+						break
+					}
+				}
+			}
 		}
 		broken := &mon.RecordingWriter{FailAt: 0, Err: mon.ErrInjected}
 		bw2 := bufio.NewWriterSize(broken, 4096)
@@ -308,14 +342,20 @@ func (c10) Run(c *run.Ctx, phase, idx int) {
 		if i%256 == 0 {
 			c.Tick()
 		}
-		var ferr error = mon.ErrInjected
+		var ferr, base error = mon.ErrInjected, mon.ErrInjected
 		switch k % 4 {
 		case 1:
 			ferr = &mon.WrappedErr{Inner: mon.ErrInjected}
 		case 2:
 			ferr = mon.TimeoutErr{} // a write deadline: Timeout() is true
+		case 3:
+			// the error values real transports return
+			base = mon.SentinelErrors[int(run.Hash64(twist, itoa(k), itoa(L))%uint64(len(mon.SentinelErrors)))]
+			ferr = base
 		}
-		fw := &mon.RecordingWriter{FailAt: k, Err: ferr, ErrWhenFull: k == L}
+		// one failing writer in three recovers after its error (a socket
+		// buffer that drained): the error was reported all the same
+		fw := &mon.RecordingWriter{FailAt: k, Err: ferr, ErrWhenFull: k == L, FailOnce: (k/4)%3 == 1}
 		var n int64
 		var err error
 		pan := mon.Guard(func() { n, err = pkt.WriteTo(fw) })
@@ -330,8 +370,8 @@ func (c10) Run(c *run.Ctx, phase, idx int) {
 			c.Violation("C10/panic-failing-writer/"+T+"/"+pan.Where, "WriteTo panicked with a failing writer: "+pan.String(), d())
 		case err == nil:
 			c.Violation("C10/error-swallowed/"+T, fmt.Sprintf("writer accepted %d of %d bytes and reported an error, WriteTo returned nil", k, L), d())
-		case !errors.Is(err, mon.ErrInjected):
-			c.Violation("C10/error-replaced/"+T, fmt.Sprintf("WriteTo returned %v, not the writer's error", err), d())
+		case !errors.Is(err, base):
+			c.Violation("C10/error-replaced/"+T, fmt.Sprintf("WriteTo returned %v, not the writer's error %v", err, ferr), d())
 		case int(n) != fw.Accepted:
 			c.Violation("C10/count-failing-writer/"+T, fmt.Sprintf("writer accepted %d bytes, WriteTo returned n=%d", fw.Accepted, n), d())
 		}
